@@ -496,6 +496,9 @@ func families(thorough bool) []dfGraph {
 		{Name: "fanout-ext", Procs: []dfProc{{In: []string{"i0"}, Out: 1}}, ExtIn: 1, ExtOut: []string{"p0o0", "p0o0"}},
 		{Name: "two-outputs", Procs: []dfProc{{In: []string{"i0"}, Out: 2}}, ExtIn: 1, ExtOut: []string{"p0o0", "p0o1"}},
 		{Name: "ext-through", Procs: []dfProc{{In: []string{"i0"}, Out: 1}}, ExtIn: 1, ExtOut: []string{"p0o0", "i0"}},
+		// processors whose input and output selectors have different widths (3 ports need 2 bits, 1-2 ports need 1)
+		{Name: "join3", Procs: []dfProc{{In: []string{"i0", "i1", "i2"}, Out: 1}}, ExtIn: 3, ExtOut: []string{"p0o0"}},
+		{Name: "three-outputs", Procs: []dfProc{{In: []string{"i0"}, Out: 3}}, ExtIn: 1, ExtOut: []string{"p0o0", "p0o1", "p0o2"}},
 	}
 	if thorough {
 		gs = append(gs,
